@@ -28,3 +28,16 @@ Theorem C09_deep_workdir :
   C09.step_spec cfg1 w1 (view_of_model cfg1 w1 (env0 NoFault) (CRemove (bs "dev1") false) []) = true.
 Proof. exact (proj2 (proj2 C09_deep_workdir_holds)). Qed.
 Print Assumptions C09_deep_workdir.
+
+(* command-line level (Model/Dispatch.v): `remove` reaches the removal that deletes files only
+   when its own switch -files is on the command line; no global switch (-force, -v, -p, -debug),
+   wherever it stands, turns a gentle removal into a destructive one *)
+From LC Require Import Model.Args Model.Dispatch Proofs.ArgsP Proofs.DispatchP.
+Theorem C09_remove_dispatch : forall pre post locals lo hi o n fl,
+  forallb pre_ok pre = true ->
+  command_info (bs "remove") = Some (locals, lo, hi) ->
+  forallb (local_ok locals) post = true ->
+  dispatch (render_toks pre ++ [bs "remove"] ++ render_toks post) = Some (o, CRemove n fl) ->
+  fl = local_bool (toks_asg post) (bs "files").
+Proof. exact dispatch_remove_gentle. Qed.
+Print Assumptions C09_remove_dispatch.
